@@ -19,7 +19,7 @@ from . import df_world as W
 LABELS = ("p", "q", "w", "u")
 PAD_MODES = ("constant", "wrap", "edge")
 OPS = [("neg", 3), ("pos", 1), ("abs", 2), ("add", 4), ("mul", 3), ("mulnum", 2), ("comp", 3), ("lshift", 2), ("diff", 3),
-       ("sub", 2), ("dot", 2), ("cross", 1), ("norm", 2), ("orientation", 1), ("integrate", 2), ("fromfield", 3), ("setsub", 2),
+       ("sub", 2), ("dot", 2), ("cross", 1), ("norm", 2), ("orientation", 1), ("integrate", 2), ("fromfield", 3), ("setsub", 2), ("q_meshclose", 1), ("q_fieldclose", 2), ("q_regionin", 1), ("q_aligned", 2),
        ("setvalid", 5), ("mutatevalid", 4), ("updateconst", 2), ("setarray", 2),
        ("selplane", 3), ("selrange", 4), ("getsub", 3), ("getregion", 3), ("pad", 4), ("resample", 2),
        ("h5", 2), ("ovf", 1), ("vtk", 1), ("xarray", 2),
@@ -171,6 +171,8 @@ class Driver:
                 if op != "lshift" and (self._maxabs(f) > big or self._maxabs(g) > big):
                     continue
                 return self.call(op, x, y=y, dst=self.dst(x))
+            if op.startswith("q_"):
+                return self.call(op, x, y=rnd.choice(F), dst=x)
             if op == "sub":
                 y = rnd.choice(F)
                 if self._maxabs(f) > 5e8 or self._maxabs(w.vars[y]) > 5e8:
